@@ -52,8 +52,8 @@ func TestGrpcDuplex(t *testing.T) {
 			for mask := 0; mask < 16; mask++ {
 				for ci := 0; ci < 9; ci++ {
 					ops := map[string]grpcOp{
-						"recv": {Kind: "recv", Grant: mask&1 != 0, Err: mask&2 != 0, Cls: cls[ci%3], LeCode: "Aborted"},
-						"send": {Kind: "send", Grant: mask&4 != 0, Err: mask&8 != 0, Cls: cls[ci/3], LeCode: "Unavailable"},
+						"recv": {Kind: "recv", Grant: mask&1 != 0, Err: mask&2 != 0, Cls: cls[ci%3], LeCode: "Aborted", Ctx: "live"},
+						"send": {Kind: "send", Grant: mask&4 != 0, Err: mask&8 != 0, Cls: cls[ci/3], LeCode: "Unavailable", Ctx: "live"},
 					}
 					if !cfg.Custom && ci != 0 {
 						continue // the classification is not consulted
